@@ -10,7 +10,7 @@
    explicit Panic outcome.  Tied to the code by the C07/C08 correspondence (chunkharness c07 / c08). *)
 From Coq Require Import ZArith List Bool.
 From Coq.Strings Require Import Byte.
-From Opcua Require Import Model.Layout Model.ChunkBytes Gen.ArithFromGo.
+From Opcua Require Import Model.Layout Model.ChunkBytes Gen.ArithFromGo Gen.ChunkPreds.
 Import ListNotations.
 Open Scope Z_scope.
 
@@ -225,20 +225,20 @@ Definition read_chunk (m : sec_mode) (pnone : bool) (A : algo) (chan : Z) (r : b
           else Ok (mkChunk ct ch (de32 d) (de32 (zdrop 4 d)) (zdrop 8 d))
         end.
 
-(* mergeChunks: a chunk whose sequence number equals the previous chunk's is skipped as a duplicate;
-   the first chunk is never a duplicate *)
-Fixpoint merge_loop (first : bool) (seqnr : Z) (cs : list chunk) : bytes :=
+(* mergeChunks: chunk i is skipped when Gen.ChunkPreds.go_mergeDuplicate (the condition of the loop's `continue`,
+   read off the Go AST on every run) holds of its number and the number of the chunk merged before it *)
+Fixpoint merge_loop (i : Z) (seqnr : Z) (cs : list chunk) : bytes :=
   match cs with
   | [] => []
   | c :: rest =>
-    if negb first && (c_seq c =? seqnr) then merge_loop false seqnr rest       (* "duplicate chunk" *)
-    else c_data c ++ merge_loop false (c_seq c) rest
+    if go_mergeDuplicate i (c_seq c) seqnr then merge_loop (i + 1) seqnr rest       (* "duplicate chunk" *)
+    else c_data c ++ merge_loop (i + 1) (c_seq c) rest
   end.
 Definition merge_chunks (cs : list chunk) : bytes :=
   match cs with
   | [] => []
   | [c] => c_data c
-  | _ => merge_loop true 0 cs
+  | _ => merge_loop 0 0 cs
   end.
 
 Inductive out :=
@@ -262,7 +262,7 @@ Record rcfg := mkRcfg { r_mode : sec_mode; r_pnone : bool; r_algo : algo; r_chan
 Definition seq_accept (last : option Z) (n : Z) : bool :=
   match last with
   | None => true
-  | Some l => (l <? n) || ((4294967295 - 1024 <=? l) && (n <? 1024))
+  | Some l => negb (go_seqReject l n)      (* Gen.ChunkPreds: read off checkSequenceNumber on every run *)
   end.
 
 Definition rstate := (chunk_table * option Z)%type.
